@@ -65,7 +65,17 @@ def _enclosing_if(txt, pos):
                 head = txt[max(0, k - 12):k]
                 if not re.search(r"\bif\s*$", head):
                     return None
-                return txt[k + 1:j]
+                # the block: from this brace to its partner
+                d2, e = 0, i
+                while e < len(txt):
+                    if txt[e] == "{":
+                        d2 += 1
+                    elif txt[e] == "}":
+                        d2 -= 1
+                        if d2 == 0:
+                            break
+                    e += 1
+                return txt[k + 1:j], txt[i:e + 1]
             depth -= 1
     return None
 
@@ -133,7 +143,7 @@ class _P:
             return {"<": "(stored <? %s)%%Z", ">": "(%s <? stored)%%Z", "<=": "(stored <=? %s)%%Z", ">=": "(%s <=? stored)%%Z",
                     "==": "(stored =? %s)%%Z", "!=": "(negb (stored =? %s)%%Z)"}[op] % z
         raise TieError("crcsites: %s: the checksum decision now depends on `%s`, which the model's page_crc_ok does not know"
-                       % (self.where, "".join(p)))
+                       % (self.where, ".".join(p)))
 
 
 def sites(repo):
@@ -162,20 +172,23 @@ def sites(repo):
         if not mv:
             raise TieError("crcsites: %s: the result of carquet_crc32 is not assigned to a variable" % where)
         comp = mv.group(1)
-        cond = _enclosing_if(txt, m.start())
-        if cond is None:
+        enc = _enclosing_if(txt, m.start())
+        if enc is None:
             raise TieError("crcsites: %s: carquet_crc32 is not called inside an `if (...) {` block" % where)
+        cond, block = enc
         guard = _P(cond, where).disj()
-        # the expected value and the rejecting comparison, inside the same block (next 12 lines)
-        tail = "\n".join(txt[k:].split("\n")[:12])
-        me = re.search(r"(\w+)\s*=\s*\(\s*uint32_t\s*\)\s*page_header\s*\.\s*crc\s*;", tail)
-        if not me:
+        # the expected value and the rejecting comparison, anywhere inside that block (statement order is free; the
+        # stored field may also be cast in the comparison itself)
+        U32 = r"\(\s*uint32_t\s*\)\s*page_header\s*\.\s*crc"
+        me = re.search(r"(\w+)\s*=\s*" + U32 + r"\s*;", block)
+        exp_pat = r"(?:%s|%s)" % (re.escape(me.group(1)), U32) if me else U32
+        if not me and not re.search(U32, block):
             raise TieError("crcsites: %s: the stored checksum is no longer taken as (uint32_t)page_header.crc" % where)
-        exp = me.group(1)
-        mc = re.search(r"if\s*\(\s*(\w+)\s*(==|!=|<|>|<=|>=)\s*(\w+)\s*\)", tail)
-        if not mc or {mc.group(1), mc.group(3)} != {comp, exp} or mc.group(2) != "!=":
-            raise TieError("crcsites: %s: the page is no longer rejected exactly when %s != %s (found: %s)"
-                           % (where, comp, exp, mc.group(0) if mc else "no comparison"))
+        cmps = re.findall(r"if\s*\(\s*(%s|%s)\s*(==|!=|<=|>=|<|>)\s*(%s|%s)\s*\)" % (re.escape(comp), exp_pat, re.escape(comp), exp_pat), block)
+        cmps = [c for c in cmps if (c[0] == comp) != (c[2] == comp)]
+        if len(cmps) != 1 or cmps[0][1] != "!=":
+            raise TieError("crcsites: %s: the page is no longer rejected exactly when %s differs from (uint32_t)page_header.crc (found: %s)"
+                           % (where, comp, [" ".join(c) for c in cmps] or "no comparison"))
         out.append((line, " ".join(cond.split()), guard))
     if not out:
         raise TieError("crcsites: no call of carquet_crc32 left in %s (page checksums are not verified any more)" % SRC)
